@@ -91,4 +91,22 @@ CHECKS = {
         "min_obs": {"segments": 5000, "max_datagram": 1280},
         "timeout": {"quick": 1200, "thorough": 14000},
     },
+    "C04": {
+        "scenarios": [("C04-tamper", "vsim")],
+        "rule": "one semantically addressed mutation per case in real multi-segment traffic (1-3 sessions, both directions, both "
+                "transports, generated traffic patterns incl. low entropy): region in {nonce, encrypted metadata, metadata tag, "
+                "padding 1, body, body tag, padding 2, last byte} x kind in {bit flip, byte substitution, insertion, deletion, "
+                "truncation, swap of two segments, replay of a segment later, splice of a segment from another connection of the "
+                "same user} x position {first, middle, last, random}; the mutator decodes the live stream with the reference codec; "
+                "non-trivial = the mutation was applied and bytes were compared; distinct = hash of (transport, kind, region, "
+                "position, direction, pattern classes)",
+        "technique": "runtime monitor: prefix / intact-stream oracle on keyed streams at the application boundary under enumerated wire "
+                     "mutations injected by a reference-codec-aware stage of the simulated network",
+        "text": "TCP: every byte read in every session must equal the sender's byte at that position (prefix property; early end "
+                "allowed). UDP: the stream must complete intact as if the modified datagram were lost.",
+        "note": "trusted: simnet mutator stage, reference codec (segment boundaries), faketime runtime",
+        "design_ref": "DESIGN.md section 4, C04",
+        "min_obs": {"mutations_applied": 100, "bytes_compared": 1000000},
+        "timeout": {"quick": 1200, "thorough": 14000},
+    },
 }
